@@ -210,7 +210,9 @@ def run_date(ctx):
     import tsdate
     import _tskit
     rng = ctx.rng
+    total = raised = 0
     for _ in range(ctx.n(220, 2500)):
+        total += 1
         method = rng.choice(["variational_gamma", "variational_gamma", "inside_outside", "inside_outside", "maximization"])
         discrete = method != "variational_gamma"
         multi = rng.random() < 0.5
@@ -239,15 +241,32 @@ def run_date(ctx):
                 "nodes": its.num_nodes, "mutations": its.num_mutations,
                 "multi_mutation_sites": sum(len(s.mutations) > 1 for s in its.sites())}
         payload = dict(desc, replay={"fn": "date", "tables": G.tc_to_json(its.dump_tables()), "kw": G.plain(kw)})
+        want_lik = rng.random() < 0.3
+        if want_lik:
+            kw["return_likelihood"] = True
+            payload["replay"]["kw"] = G.plain(kw)
         with G.LogTap() as tap:
             try:
                 with warnings.catch_warnings():
                     warnings.simplefilter("ignore")
-                    ots, fit = tsdate.date(its, **kw)
-            except (AssertionError, _tskit.LibraryError, FloatingPointError, ValueError, ZeroDivisionError) as e:
+                    ret = tsdate.date(its, **kw)
+            except Exception as e:   # noqa: BLE001 - raising is C35's business
                 ctx.tally("date-raised(C35):%s" % type(e).__name__)
+                raised += 1
                 continue
+        # parse_result: (ts, fit) or (ts, fit, likelihood), in this order
+        import tskit
+        ok_shape = isinstance(ret, tuple) and len(ret) == (3 if want_lik else 2) and \
+            isinstance(ret[0], tskit.TreeSequence) and hasattr(ret[1], "node_posteriors") and \
+            (not want_lik or ret[2] is None or isinstance(ret[2], (float, np.floating)))
+        if not ok_shape:
+            ctx.oracle_fail("c04:parse-result-shape", "date(return_fit=True, return_likelihood=%r) returned %r" % (
+                want_lik, [type(x).__name__ for x in ret] if isinstance(ret, tuple) else type(ret).__name__), payload)
+            continue
+        ots, fit = ret[0], ret[1]
         check_dated(ctx, its, ots, fit, method, tap.events, payload, desc)
+    if total >= 20 and raised > total // 2:
+        ctx.tie_fail("correspondence", "date() raises on most inputs", "%d of %d runs raised: %r" % (raised, total, ctx.dist))
 
 
 def check_dated(ctx, its, ots, fit, method, events, payload, desc=None):
@@ -333,7 +352,8 @@ def replay(ctx, data):
         with G.LogTap() as tap:
             with warnings.catch_warnings():
                 warnings.simplefilter("ignore")
-                ots, fit = tsdate.date(its, **kw)
+                ret = tsdate.date(its, **kw)
+        ots, fit = ret[0], ret[1]
         check_dated(ctx, its, ots, fit, kw["method"], tap.events, case)
     elif "rows" in case and "timepoints" in case:
         o = run_impl_grid(case)
